@@ -3,6 +3,7 @@ import SeqVerif.Model.C03Codec
 import SeqVerif.Model.C03Lids
 import SeqVerif.Model.C03Ids
 import SeqVerif.Model.C03Tokens
+import SeqVerif.Model.C03Frac
 import Std.Data.HashMap
 /-!
 Driver for C03.  Lists: `,` inside a posting list / chunk, `;` between chunks / tokens, `|` between fields / blocks,
@@ -22,6 +23,7 @@ Driver for C03.  Lists: `,` inside a posting list / chunk, `;` between chunks / 
   tokens.gen <old|new> <rbs> <fields: hex,hex|...>   -> ok <field:isStart:total:startTID:hex,hex|...> | panic
   tokens.table <rbs> <base> <fields>               -> ok entries=<field:startIndex:startTID:blockIndex:valCount:min:max;...> vals=<hex,...> | panic
   tokens.select <hint> <minVal> <maxVals>          -> ok <l> <r>
+  frac.index <mids> <rids> <allDocs> <posting> <minLID> <maxLID>  -> ok ids=<mid:rid,...> index=<...> asc=<lids> desc=<lids>
 -/
 open SV SV.Proto SV.C03
 
@@ -178,6 +180,12 @@ def step (line : String) : String :=
       let r := selectEntries hint mn mxs
       if r.1 ≥ r.2 then "ok empty" else s!"ok {r.1} {r.2}"
     | _, _, _ => "bad-op"
+  | ["frac.index", mids, rids, all, post, mn, mx] =>
+    match natList? mids, natList? rids, natList? all, natList? post, mn.toNat?, mx.toNat? with
+    | some mids, some rids, some all, some post, some mn, some mx =>
+      let a : Active := { mids := mids, rids := rids, allDocs := all, fields := [] }
+      s!"ok ids={fmtList fmtID (sealedIDs a)} index={fmtNats a.index} asc={fmtNats (activeNode a post mn mx false)} desc={fmtNats (activeNode a post mn mx true)}"
+    | _, _, _, _, _, _ => "bad-op"
   | _ => "bad-op"
 
 def main : IO Unit := SV.Proto.main step
